@@ -293,15 +293,30 @@ pub fn run(rep: &mut Report) {
             }
         }
     }
+    // characters that are not digits but look like digits to sloppy arithmetic (low byte 0x30..0x39), in width positions
+    for hi in [0x01u32, 0x04, 0x4e, 0x1f6, 0xff] {
+        for lo in 0x30u32..0x3a {
+            if let Some(c) = char::from_u32(hi << 8 | lo) {
+                long_cases.push(format!("pre|{{m:{}}}", c));
+                long_cases.push(format!("pre|{{m:>{}5}}", c));
+                long_cases.push(format!("pre|{{m:4.{}}}", c));
+                long_cases.push(format!("pre|{{m:{}.{}}}", c, c));
+            }
+        }
+    }
     let long_ref = &long_cases;
     run_cases(rep, "long-junk", long_cases.len() as u64, |rep, rng, idx| {
         let s = &long_ref[idx as usize];
         let ctx = plain_ctx(rng);
         rep.case_enumerated(true);
         rep.count("long_non_ascii_junk_patterns", 1);
-        if let Some(Outcome::Ok { text, .. }) = exercise(rep, s, &ctx, "long-junk") {
-            if !String::from_utf8_lossy(&text).starts_with("pre|") {
+        if let Some(Outcome::Ok { text, encode_err, .. }) = exercise(rep, s, &ctx, "long-junk") {
+            let got = String::from_utf8_lossy(&text).into_owned();
+            if !got.starts_with("pre|") {
                 rep.violation("C11:prefix-before-error-not-rendered", json!({"pattern": s, "got": crate::fsutil::show_bytes(&text)}));
+            } else if encode_err.is_none() && !got.contains("{ERROR: ") {
+                // every pattern of this family is malformed (unknown formatter, bad date format or zone, junk in a width)
+                rep.violation("C11:error-not-surfaced:junk", json!({"pattern": s, "got": crate::fsutil::show_bytes(&text)}));
             }
         }
     });
